@@ -2,6 +2,8 @@ from props import COMMON_TRUST
 
 
 def nontrivial(tok, res):
+    if tok[0] in ("freq", "fh2c"):
+        return res.startswith("be=") and not res.startswith("be=-")
     if tok[0] in ("req", "treq"):
         return res.startswith("be=") and not res.startswith("be=-")
     if tok[0] in ("ws", "connect", "tws", "tconnect", "h2c"):
@@ -15,6 +17,13 @@ def nontrivial(tok, res):
 
 def result_class(r):
     import re
+    if r.startswith("be=") and (" pre=" in r or " up=" in r and " ! st=" in r and " b=" in r and " fr=" not in r):
+        # fault ops: who was reached, how the message ended at its final reader
+        m = re.search(r" end=(\w+)", r)
+        w = re.search(r" whole=(\d)", r)
+        f = re.search(r" fr=(\w+)", r)
+        return "fault:%s%s%s%s" % ("nobe" if r.startswith("be=-") else "be", " fr=" + f.group(1) if f else "",
+                                   " end=" + m.group(1) if m else "", " whole=" + w.group(1) if w else "")
     if r.startswith("be="):
         m = re.search(r" st=(\d+)", r)
         be = "err" if r.startswith("be=-") else "fwd"
@@ -32,6 +41,10 @@ def result_class(r):
 def e2e_nontrivial(tok, res):
     if tok[0] == "hc":
         return ",ok" in res
+    if tok[0] == "hl":
+        return "probe=ok" in res
+    if tok[0] == "hf":
+        return res.startswith("be=") and not res.startswith("be=-")
     return tok[0] == "hx" and res.startswith("be=") and not res.startswith("be=-")
 
 
@@ -43,16 +56,24 @@ def e2e_class(r):
         kinds = sorted({"%s%s" % (e[0].split("/")[0], "+comp" if e[0].split("/")[2:3] == ["1"] else "") for e in exs if e[0] != "-"})
         n = len(r.split(";"))
         return "%s users=%s %s" % (",".join(kinds) or "-", "2-4" if n <= 4 else "5-8", "ok" if all(e[-1] == "ok" for e in exs) else "NOT-OK")
+    if r.startswith("open="):
+        kv = dict(x.split("=", 1) for x in r.split(";"))
+        n = int(kv["open"])
+        return "held=%s probe=%s %s" % ("1-8" if n <= 8 else "9-16" if n <= 16 else "17-24", kv["probe"],
+                                         "all-ended" if kv["open"] == kv["fin"] and kv["bad"] == "0" else "NOT-ALL-ENDED")
     if not r.startswith("be="):
         return r[:20]
     kv = dict(x.split("=", 1) for x in r.split(";") if "=" in x)
+    if "uw" in kv:
+        # fault op: proxy kind, did the request arrive whole, how the answer ended at the user
+        return "%s uw=%s st=%s dfr=%s end=%s" % (kv["be"].split("/")[0], kv["uw"], "0" if kv["st"] == "0" else ("err" if kv["tag"] == "-" else "be"), kv["dfr"], kv["end"])
     big = lambda v: v not in (None, "-") and int(v.split(".")[0]) > 8192
     return "%s end=%s%s%s" % (kv.get("be"), kv.get("end"), " up>burst" if big(kv.get("up")) else "", " down>burst" if big(kv.get("down")) else "")
 
 
 PROP = {
     "level": "proof",
-    "gens": ["CodecFacts"],
+    "gens": ["CodecFacts", "HttpFacts"],
     "theorems": [
         "Frp.C02.request_line_body_untouched", "Frp.C02.host_spec", "Frp.C02.request_headers_preserved",
         "Frp.C02.configured_header_spec", "Frp.C02.configured_order_irrelevant", "Frp.C02.configured_dup_witness",
@@ -78,6 +99,24 @@ PROP = {
         "Frp.C02.codec_unsafe_breaks", "Frp.C02.roundHolds_sound", "Frp.C02.model_roundHolds",
         "Frp.C02.plugin_raw_serves_all", "Frp.C02.plugin_wrapped_serves_one", "Frp.C02.plugin_wrapped_keepalive_witness",
         "Frp.C02.codec_source_disc", "Frp.C02.codec_source_safe", "Frp.C02.codec_source_plugins_queue",
+        "Frp.C02.abort_chain_faithful",
+        "Frp.C02.upload_chain_faithful",
+        "Frp.C02.abort_source_no_recover",
+        "Frp.C02.frpEnv_propagates",
+        "Frp.C02.abort_frp_faithful",
+        "Frp.C02.abort_recovered_witness",
+        "Frp.C02.abort_unfaithful_env_breaks",
+        "Frp.C02.abort_cl_always_cut",
+        "Frp.C02.abort_eof_indistinguishable",
+        "Frp.C02.abortHolds_sound",
+        "Frp.C02.model_abortHolds",
+        "Frp.C02.limit_unlimited_forwards_all",
+        "Frp.C02.limit_kth_concurrent_forwarded",
+        "Frp.C02.limit_source_no_cap",
+        "Frp.C02.limit_source_paths_uncapped",
+        "Frp.C02.limit_source_paths_forward",
+        "Frp.C02.limit_cap_blocks",
+        "Frp.C02.longHolds_sound",
     ],
     "engines": [
         {"name": "http", "quick_n": 3000, "thorough_n": 12000, "thorough_seeds": 4,
@@ -134,7 +173,19 @@ PROP = {
             "The Lean engine runs the round's schedule on CodecPool.run with the discipline READ FROM client/proxy/proxy.go "
             "(Gen.CodecFacts.disc), pool state carried from round to round, and predicts 'own answer' only while every "
             "Read / Write works on its own stream. A user whose only symptom is a timeout takes its result from ONE more "
-            "execution of the whole round (same concurrency); a foreign / mixed-up / truncated answer is never retried.",
+            "execution of the whole round (same concurrency); a foreign / mixed-up / truncated answer is never retried. "
+            "FAULT ops (hf, about 30 per quick run; first one answer fault per kind): the same faults d / q / u through the plain "
+            "path and the four plugins x useEncryption x useCompression (one relaying hop more: the plugin's ReverseProxy behind "
+            "the plugin's http.Server), and w = the backend stops after k bytes and the WORK CONNECTION is killed (pairs without "
+            "tcpMux reach frps through a relay of the harness; only work connections in use are closed, frps' spare ones stay); "
+            "abortHolds on the chain of hops of the proxy kind; frp's own error answer (404 page / the plugins' 502 / 504) is "
+            "accepted instead of a cut. LONG-LIVED rounds (hl, 11 per quick run; first one round of 17-24 per kind, then 3 / 9 / 16 / "
+            "17 / 20 / 24): n users each open an exchange the backend HOLDS open (chunked stream, close-delimited stream: header "
+            "block + first half of the body at once; long poll: nothing), when all n are open (event driven, 1.5 s bound) one more "
+            "short request (GET / POST) goes through the same proxy and must be served while they are open, then all are released "
+            "and must end completely with their own body; longHolds (all opened, probe served, all ended). The Lean engine "
+            "predicts it from ConnLimit.pathForwards over the Transport literals READ FROM the source (Gen.HttpFacts.transports). "
+            "A round whose only symptom is a timeout is executed once more with 3 s bounds.",
     "trusted": COMMON_TRUST + [
         "models Frp/Model/HttpRewrite.lean, HttpPool.lean written by hand from pkg/util/vhost/http.go and from the "
         "go1.23 sources of net/http/httputil.ReverseProxy, http.Transport, http.Server (those standard-library "
@@ -156,6 +207,14 @@ PROP = {
         "the same after-Join discipline and is covered by the same rounds but not by the generator",
         "model Frp/Model/ConnReader.lean (net/http conn.serve + abortPendingRead against sticky crypto / snappy reader "
         "errors) written by hand; tied by harness/corpus/httpe2e/01-plugin-keepalive-wrapped.ops (known finding)",
+        "models Frp/Model/HttpAbort.lean (how a body ends per framing; httputil.ReverseProxy's panic(http.ErrAbortHandler) and "
+        "shouldPanicOnCopyError; http.Server finishing the answer of a handler that returns; Transport.writeLoop closing the "
+        "backend connection on a failed request body) and Frp/Model/ConnLimit.lean (Transport.MaxConnsPerHost: queueForDial / "
+        "decConnsPerHost) written by hand from the go1.23 net/http sources (ASSUMED; sampled by the fault ops and the long-lived "
+        "rounds); the facts about frp's own code — no `defer` with `recover()` in pkg/util/vhost/http.go and the four plugin "
+        "files, which fields the http.Transport literals of their ReverseProxies set — are regenerated by "
+        "translate/gen_httpfacts.go on every run (abort_source_no_recover, limit_source_no_cap); a recover or a Transport built "
+        "in another file is outside that syntactic fact (the engines still drive the real code)",
         "relational: which idle connection the Transport picked, framing of empty bodies and of answers, Content-Type "
         "sniffing of unknown-length answers (timer race inside ReverseProxy) are taken from the implementation's result",
     ],
@@ -183,6 +242,17 @@ PROP = {
         "from (httputil.ReverseProxy without full duplex, in frps and in the plugins; observed as a truncated answer in "
         "about 1 of 50-100 runs on a loaded machine, root-caused with a stack trace of the closing goroutine); that "
         "scheduling artefact of the standard library is not sampled",
+        "faults: a close-delimited body cut short cannot be told from a complete one (abort_eof_indistinguishable): only 'a "
+        "prefix, every byte written before the close' is demanded there; how many bytes a hop had read but not yet passed on "
+        "when it aborted is taken from the implementation (any prefix is accepted); a cut answer whose status line never left a "
+        "server's buffer (small Content-Length answers) shows as a closed connection or, behind a plugin, as frps' not-found "
+        "page — accepted; a backend that dies before answering behind a plugin gives the plugin's 502 (httputil's default "
+        "ErrorHandler) — accepted besides the 404 page / 504; faults inside a header block, trailers and 1xx are not driven; "
+        "the work connection is killed only without tcpMux (with it a work connection is a yamux stream of the control "
+        "connection)",
+        "long-lived rounds: streamed answers and long polls, at most 24 open at once per proxy; upgraded (WebSocket) connections "
+        "held open are not part of these rounds; frps' own limits (transport.maxPoolCount), yamux windows and the OS are sampled "
+        "only up to that number",
         "h2c: only the upgrade of RFC 7540 3.2 with one request (stream 1) is driven; prior-knowledge h2c (PRI) has no Host "
         "and is answered 404 by frp's no-route branch; later streams of an upgraded connection are not driven",
         "TLS termination: X-Forwarded-Proto=https branch is proved but not sampled (vhost HTTP port is plain)",
@@ -193,7 +263,7 @@ PROP = {
 }
 
 META = {
-    "engine": "lean+harness(http,httpe2e)",
+    "engine": "lean+translator(CodecFacts,HttpFacts)+harness(http,httpe2e)",
     "design_ref": "DESIGN.md §6 C02, §7 item 14",
     "technique": "Lean 4 theorems over all requests / header maps / route configs / histories / time lines (per-header-key "
                  "characterisation of the Rewrite and ModifyResponse closures around the standard reverse proxy, "
@@ -223,7 +293,9 @@ META = {
             "generated ops per quick run on the real HTTPReverseProxy (about 30 timed exchanges, about 130 upgrades, 20 "
             "h2c upgrades) + 68 exchanges through a real frps+frpc pair over the tunnel-option lattice + 40 rounds of 2-8 "
             "SIMULTANEOUS users (about 400 exchanges) through the plain path and the http2http / http2https / https2http / "
-            "https2https plugins x useEncryption x useCompression, each user checked for exactly its own answer. Concurrency: "
+            "https2https plugins x useEncryption x useCompression, each user checked for exactly its own answer, + about 30 "
+            "mid-exchange faults (dying backend, dying user, killed work connection) and 11 rounds of up to 24 exchanges held "
+            "open at once with a further request that must still be served, through the plain path and every plugin. Concurrency: "
             "the pooled snappy reader / writer of compressed work connections is a shared resource; with the recycle sites "
             "of client/proxy/proxy.go (read from the source: once, after Join returned; never on the plugin path) no two live "
             "connections ever hold the same object and every Read / Write works on its own stream, for ALL interleavings and "
